@@ -100,6 +100,8 @@ type Scenario struct {
 	// one) are held at the hook point before they look at the job's context,
 	// until cancel() has returned (bounded). Such a job must not start.
 	HoldAtGot bool `json:"hold_at_got,omitempty"`
+	// CauseCtx: the scenario's contexts carry cancellation causes.
+	CauseCtx bool `json:"cause_ctx,omitempty"`
 	// EmitGoexitAt > 0: the state emitter kills the goroutine it is called on
 	// (runtime.Goexit) at its k-th report. Only termination and leaks are judged.
 	EmitGoexitAt int `json:"emit_goexit_at,omitempty"`
@@ -132,6 +134,22 @@ func (s *Scenario) hasCancel() bool {
 var nChoices = []int{1, 1, 2, 2, 3, 4, 4, 5, 8, 16, 64, 0}
 
 func Generate(seed uint64, family string, index int) *Scenario {
+	sc := generate(seed, family, index)
+	// a third of all scenarios: every context carries a cancellation cause
+	// (context.WithCancelCause / WithTimeoutCause / WithDeadlineCause); what the
+	// scheduler reports must still be the context's error (ctx.Err()), never the
+	// cause.
+	sc.CauseCtx = mix64(seed^hashStr(family)^uint64(index)*0x9E3779B97F4A7C15)%3 == 0
+	return sc
+}
+
+func mix64(z uint64) uint64 {
+	z = (z ^ (z >> 30)) * 0xBF58476D1CE4E5B9
+	z = (z ^ (z >> 27)) * 0x94D049BB133111EB
+	return z ^ (z >> 31)
+}
+
+func generate(seed uint64, family string, index int) *Scenario {
 	r := vc.NewRand(seed, hashStr(family), uint64(index))
 	switch family {
 	case "mix":
